@@ -208,8 +208,6 @@ func (h *History) apply(op Op) bool {
 	// Compactions of the tsi1 log started by this op run in the background;
 	// half of the time the questions are asked while they may still be running.
 	settle := h.g.Intn(2) == 0 || op.Kind == "tsi-compact"
-	t0 := time.Now()
-	defer func() { r.Count("ms_in_op_"+op.Kind, time.Since(t0).Milliseconds()) }()
 	res, dump := ev.Watch(150*time.Second, 15*time.Second, func() {
 		for _, e := range h.envs {
 			var err error
@@ -559,7 +557,10 @@ const (
 // tsi1: on reopen LogFile.execSeriesEntry skips a series tombstone whose key the (compacted) series file no longer resolves
 const replayClass = "series-tombstone-skipped-on-log-replay"
 
-var classes = []string{"", ghostClass, tombClass, staleClass}
+// tsi1: consequence of replayClass: the phantom id keeps Index.MeasurementHasSeries true, so the measurement is never tombstoned
+const phantomClass = "measurement-kept-by-series-id-resurrected-on-log-replay"
+
+var classes = []string{"", ghostClass, tombClass, staleClass, phantomClass}
 
 // explains reports whether a stale indexed tag pair can make the index-backed
 // measurement listing match p: only `=` and `=~` leaves read the tag value index.
@@ -620,7 +621,10 @@ func (h *History) classifyTagSurplus(scope []uint64, filter *Pred) func(e *Env, 
 			}
 		}
 		for _, st := range h.stale(scope) {
-			if st.Name != f[0] || (filter != nil && !filter.Match(st.Tags)) {
+			// A stale series also shows up under predicates it does not satisfy: `k != 'v'`
+			// is (all series of the measurement, stale ones included) minus (series of
+			// k=v, where the tombstones ARE applied).
+			if st.Name != f[0] {
 				continue
 			}
 			for k, v := range st.Tags {
@@ -645,7 +649,7 @@ func (h *History) classifyMeasSurplus(scope []uint64, p *Pred) func(e *Env, entr
 			return tombClass
 		}
 		for _, st := range h.stale(scope) {
-			if st.Name == s && p.Match(st.Tags) {
+			if st.Name == s {
 				return staleClass
 			}
 		}
@@ -673,8 +677,6 @@ func (h *History) askAll() bool {
 	suffix := strings.Join(h.kinds[max(0, len(h.kinds)-3):], ">")
 	nontrivial := h.dropSeen && h.churnSinceDrop
 	ok := true
-	t0 := time.Now()
-	defer func() { r.Count("ms_in_questions", time.Since(t0).Milliseconds()) }()
 	res, _ := ev.Watch(150*time.Second, 15*time.Second, func() {
 		for _, e := range h.envs {
 			for _, q := range qs {
@@ -711,6 +713,13 @@ func (h *History) askAll() bool {
 						c := ""
 						if q.Classify != nil {
 							c = q.Classify(e, s)
+						}
+						if c == "" && e.Index == "tsi1" && h.reopened {
+							// an entry of a measurement without live series that a resurrected id keeps un-tombstoned
+							m := strings.SplitN(s, "\x00", 2)[0]
+							if !h.m.measLive(q.Scope, m) && e.PhantomInMeasurement(q.Scope, m) {
+								c = phantomClass
+							}
 						}
 						groups[c] = append(groups[c], s)
 					}
